@@ -1,4 +1,44 @@
-From Coq Require Import List ZArith NArith.
-From QV Require Import Cell.Spec Feb.Model.
-Theorem placeholder_C02 : True. Proof. exact I. Qed.
-Print Assumptions placeholder_C02.
+(* C02: FEB waiters are always woken.  Statements only; proofs in Feb/Proofs.v *)
+From Coq Require Import List ZArith NArith Bool.
+Import ListNotations.
+From QV Require Import Cell.Spec Feb.Model Feb.Proofs.
+
+(* a transition to full (writeEF / writeEF_nb / writeF / fill on an empty word) releases every writeFF waiter, every readFF
+   waiter and exactly min 1 |FEQ| readFE waiters, in this order, with the values of the linearisation *)
+Theorem fill_releases : forall (r : rec) (v : Z) (t : N) (o : op),
+  winv r -> r_full r = false -> fills o = true ->
+  exists wr, word_step (Some r) v t o = Some wr /\
+    wr_rel wr = map rel_of (fill_released r (written o v)) /\
+    length (wr_rel wr) = (length (r_FFWQ r) + length (r_FFQ r) + Nat.min 1 (length (r_FEQ r)))%nat.
+Proof. exact fill_releases_word. Qed.
+Print Assumptions fill_releases.
+
+(* a transition to empty (readFE / readFE_nb / empty / purge on a full word) releases exactly min 1 |EFQ| writeEF waiters *)
+Theorem empty_releases : forall (r : rec) (v : Z) (t : N) (o : op),
+  winv r -> r_full r = true -> empties o = true ->
+  exists wr, word_step (Some r) v t o = Some wr /\
+    wr_rel wr = map rel_of (empty_released r) /\
+    length (wr_rel wr) = Nat.min 1 (length (r_EFQ r)).
+Proof. exact empty_releases_word. Qed.
+Print Assumptions empty_releases.
+
+(* release_effect / no_spurious: the released operations are applied in the same step, each enabled where it stands
+   (this is the linearisation of feb_word_refines); and afterwards nothing blocked is enabled *)
+Theorem quiescent_after_step : forall (ro : option rec) (v : Z) (t : N) (o : op) (wr : wres),
+  winv_opt ro -> word_step ro v t o = Some wr ->
+  forall x, In x (pool_opt (wr_rec wr)) -> enabled (cell_of (wr_rec wr) (wr_val wr)) (snd x) = false.
+Proof. exact quiescent_word. Qed.
+Print Assumptions quiescent_after_step.
+
+(* in every reachable state no blocked operation is enabled *)
+Theorem quiescent_no_enabled_blocked : forall (l : list (N * gop)) (a : N) (r : rec) (x : waiter * cop),
+  lookup a (st_febs (exec l)) = Some r -> In x (pool r) ->
+  enabled (mkCell (r_full r) (memget a (exec l))) (snd x) = false.
+Proof. exact quiescent_reachable. Qed.
+Print Assumptions quiescent_no_enabled_blocked.
+
+(* nascent (precondition) waiters are never scheduled directly *)
+Theorem nascent_not_scheduled : forall (rs : list rel) (t : N) (c : code) (x : option Z),
+  In (Ret t c x) (rel_events rs) -> In (t, false, x) rs /\ c = OK.
+Proof. exact rel_events_no_nascent. Qed.
+Print Assumptions nascent_not_scheduled.
